@@ -43,7 +43,8 @@ func vfC20Output(c *vfc20.Case, tg *vfdoubles.Target, parallel int) *RedisOutput
 		RunId:                      "vfrun",
 		BisyncEnabled:              c.Mode == "bisync",
 		EnableResumeFromBreakPoint: true,
-		TargetDb:                   -1,
+		TargetDb:                   c.TDB - 1,
+		TargetDbMap:                c.DBMapGo(),
 		KeyExists:                  pol,
 		KeyExistsLog:               c.Log,
 		ReplaceHashTag:             c.HashTag,
@@ -239,9 +240,6 @@ func TestVerifC20Syncer(t *testing.T) {
 				t.Fatalf("corpus line: %v", err)
 			}
 			c.Mode = mode
-			if mode == "bisync" {
-				c.Bad = nil // a refused payload inside the unit's EXEC fails the bidirectional replay: not modelled
-			}
 			run(&c, "corpus")
 		}
 	}
@@ -259,8 +257,10 @@ func TestVerifC20Syncer(t *testing.T) {
 			run(c, "exhaustive-hashtag")
 		}
 	}
-	for _, c := range vfc20.ExhaustiveBad("wplain") {
-		run(c, "exhaustive-bad-data")
+	for _, mode := range []string{"wplain", "bisync"} {
+		for _, c := range vfc20.ExhaustiveBad(mode) {
+			run(c, "exhaustive-bad-data")
+		}
 	}
 	// a client write between the EXISTS probe and the unit's EXEC (bidirectional, RESTORE path)
 	for _, pol := range []string{"replace", "ignore", "error"} {
